@@ -115,7 +115,7 @@ def w_basic(ctx, rng, i):
     order = int(rng.integers(1, 9))
     which = "lpf" if i % 2 == 0 else "bpf"
     cut = float(rng.uniform(0.01, 0.45)) * fs
-    n = core.long_or(rng, i, int(rng.choice([padlen(order) + 2, 32, 33, 100, 257, 1024, 4096])), every=32)
+    n = core.long_or(rng, i, int(rng.choice([padlen(order) + 2, 32, 33, 100, 257, 1024, 4096])), every=32, huge=False)     # (records of millions of samples have their own workload `huge`: a dozen filter calls on one here ran into the 60 s watchdog on a loaded machine)
     n = max(n, padlen(order) + 2)
     n_pol = 1 if which == "lpf" else int(rng.integers(1, 3))
     noise = bool(rng.integers(2))
